@@ -35,7 +35,7 @@
    PrintNode.Directives (ledger I5) -- a write to LRegistry by every render,
    modelled below as [pinned_print_prog] to show that the theory flags it; the
    model of the renderer describes the tree after that repair. *)
-From Soy Require Import Model.Bytes Model.Values Model.Outcome Model.Ast Model.Interp Model.Compile Model.Conc.
+From Soy Require Import Model.Bytes Model.Values Model.Outcome Model.Ast Model.Interp Model.Conc.
 Open Scope N_scope.
 
 Inductive rloc := LRegistry | LFiles | LConfig | LMessages | LHeap | LOwn (i : nat).
@@ -56,14 +56,15 @@ Fixpoint cheap_get (h : cheap) (id : N) : option (list (bstr * value)) :=
   | (k, m) :: r => if k =? id then Some m else cheap_get r id
   end.
 
+(* a SoyFileNode: name and children *)
+Record jfile := { jf_name : bstr; jf_body : list node }.
+
 Inductive sval :=
 | SRegistry (r : registry)
 | SConfig (oblig : list bstr)
 | SMessages (m : option msg_bundle)
 | SHeap (h : cheap)
-| SFiles (fs : list sfile)        (* Registry.SoyFiles: the processed tree of every file (what soyjs.Write walks) *)
-| SCreg (r : creg)                (* a registry under construction (Bundle.Compile) *)
-| SCompiled (c : cresult compiled)
+| SFiles (fs : list jfile)        (* Registry.SoyFiles: the processed tree of every file (what soyjs.Write walks) *)
 | SClobbered.                     (* content after a write the model does not describe *)
 
 (* one call of Renderer.Execute *)
